@@ -152,7 +152,13 @@ def check_container_kinds(prog: Program, res, only=None) -> None:
             n += 1
             inst = f"{tag} -> {s} holds {need}"
             badk = {k for k in kinds if k not in (need, "<src>")}
-            if badk:
+            if "<unknown>" in badk:
+                site = getattr(v, "why", "") or why
+                res.unrecognised("R-CONTAINER-KIND", inst, "",
+                                 f"the containers stored in {s} come from a "
+                                 f"call the interpreter cannot follow "
+                                 f"(`{site}`)")
+            elif badk:
                 site = getattr(v, "why", "") or why
                 res.bad("R-CONTAINER-KIND", f"{site} => {s} {sorted(badk)}",
                         "", f"{inst}: the result stores {sorted(badk)} "
